@@ -127,7 +127,9 @@ class Live:
                     if t is not None:
                         await sim.sleep_until(t - vsim.T0)      # the cleanup timer and the query schedulers run in between
                     if k in ("D", "W"):
-                        host.inject(CC.payload_of(op[2]), "10.0.0.9")
+                        oo = CC.op_opts(op)
+                        data = bytes(CC.payload_of(op[2], oo.get("sec")))
+                        host.deliver(data, ("fe80::9", 5353, 0, 0) if oo.get("src6") else ("10.0.0.9", 5353))
                     elif k == "BA":
                         bid = op[1]
                         old = self.browsers.pop(bid, None)
